@@ -615,6 +615,18 @@ func genLocCase(r *rand.Rand, prof string) Case {
 			ops = append(ops, rd)
 		}
 	}
+	if prof == "cache" && nlocs > 1 && r.Intn(2) == 0 {
+		// through a System: the parents are taken away again (an EMPTY parent list), and the next
+		// inherited search and event must not see the former parent any more
+		ops = append(ops, map[string]interface{}{"loc": "L0", "op": "setparents", "parents": []interface{}{}})
+		for k := 0; k < 6; k++ {
+			o := lg.op()
+			if k < 2 {
+				o["loc"] = "L0"
+			}
+			ops = append(ops, o)
+		}
+	}
 	c := Case{"profile": prof, "locs": locs, "ops": ops}
 	if scriptedChild {
 		c["child"] = true // (a deadlock in the purge that follows the removal must be an observation)
